@@ -108,6 +108,7 @@ func c19(tier string) []*explore.Scenario {
 	for _, pending := range []string{"sender", "reader", "both", "none", "reader-after-abandoned-read", "write-in-flight-at-tick"} {
 		out = append(out, c19HTTPIdle(pending, bound))
 	}
+	out = append(out, c19HTTPGenerations(3, true, 1), c19HTTPGenerations(3, false, 0), c19HTTPGenerations(6, true, 0))
 	out = append(out, c19HTTPTickVsRegistration(bound))
 	out = append(out, c19WebSocket(tier == "thorough"))
 	return out
@@ -944,3 +945,65 @@ func c19WebSocket(big bool) *explore.Scenario {
 }
 
 var _ = strings.Contains
+
+// c19HTTPGenerations: the idle timeout must keep working for the whole life of the object, not
+// only for its first connections: `gens` times over, a peer posts, its connection is announced
+// and read, goes idle with a reader blocked, and that reader must fail once the timeout has
+// passed (and not before); then the same peer (or another one) comes back on the same object.
+func c19HTTPGenerations(gens int, samePeer bool, bound int) *explore.Scenario {
+	fam := "C19/http-idle"
+	return &explore.Scenario{
+		Name: fmt.Sprintf("C19/http/idle-generations/gens=%d/same-peer=%v", gens, samePeer), Family: fam, Prop: "C19", Bound: bound,
+		Run: func() {
+			clk := env.NewClock()
+			var conns []goat.RpcReadWriter
+			goh := goat.NewGoatOverHttp(func(id string, rw goat.RpcReadWriter) { conns = append(conns, rw) },
+				func(s string) (string, error) { return s, nil },
+				goat.WithClock(clk), goat.WithConnectionCleanupInterval(time.Minute), goat.WithConnectionTimeout(4*time.Minute))
+			vsched.Settle()
+			vsched.Explore(true)
+			for g := 0; g < gens; g++ {
+				src := "peer"
+				if !samePeer {
+					src = fmt.Sprintf("peer%d", g)
+				}
+				b, _ := proto.Marshal(&env.Rpc{Id: uint64(10 + g), Header: &goatorepo.RequestHeader{Method: "/a/B", Source: src, Destination: "d"}})
+				code := 0
+				vsched.GoNamed(fmt.Sprintf("poster%d", g), func() { code = post(goh, bytes.NewReader(b)) })
+				vsched.Quiesce()
+				if len(conns) != g+1 {
+					vsched.Fail(fam+"|generation-not-announced", "generation %d: %s posted after the previous connection had timed out: %d connections announced so far (status %d)", g, src, len(conns), code)
+					return
+				}
+				conn := conns[g]
+				got, err := conn.Read(context.Background())
+				if err != nil || got.GetId() != uint64(10+g) {
+					vsched.Fail(fam+"|generation-delivery", "generation %d: first read: %v %v", g, got, err)
+					return
+				}
+				vsched.Quiesce()
+				rdone := false
+				var rerr error
+				vsched.GoNamed(fmt.Sprintf("reader%d", g), func() { _, rerr = conn.Read(context.Background()); rdone = true })
+				vsched.Quiesce()
+				clk.Advance(3 * time.Minute)
+				vsched.Quiesce()
+				if rdone {
+					vsched.Fail(fam+"|early-timeout", "generation %d: the reader failed (%v) after 3 of the 4 minutes", g, rerr)
+					return
+				}
+				for i := 0; i < 3 && !rdone; i++ {
+					clk.Advance(time.Minute)
+					vsched.Quiesce()
+				}
+				vsched.Obs("generation %d: reader done=%v err=%v", g, rdone, rerr)
+				if !rdone || rerr == nil {
+					vsched.Fail(fam+"|idle-not-swept", "generation %d of connections on one GoatOverHttp: idle for 6 minutes (timeout 4, tick every minute) and its blocked reader has not failed (done=%v err=%v)", g, rdone, rerr)
+					return
+				}
+			}
+			goh.Cancel()
+			vsched.Quiesce()
+		},
+	}
+}
